@@ -344,8 +344,18 @@ class Driver:
 
             def consumer():
                 try:
-                    for v in w.results_iter():
-                        live['got'].append(_rep(v))
+                    if kind == 'PR':
+                        # the control connection of a remote worker is not meant to be used from two threads at once (is_alive()
+                        # in next_result() versus terminate() in the main thread): consume the endpoint itself, like a multiplexer
+                        ep = w.results_endpoint
+                        while True:
+                            m = ep.get()
+                            if not m[1]:
+                                break
+                            live['got'].append(_rep(m[2]))
+                    else:
+                        for v in w.results_iter():
+                            live['got'].append(_rep(v))
                     live['end'] = 'empty'
                 except BaseException as e:  # noqa
                     live['end'] = 'RAISES:%s' % type(e).__name__
